@@ -12,15 +12,24 @@ EXTENDS Naturals, Sequences, FiniteSets, TLC
 VARIABLES
   live,     \* key |-> value resident (0 = none)
   loading,  \* keys whose loader is running
-  pend      \* operation id |-> [op, k, cand]  cand: values this fetch may return
+  pend,     \* operation id |-> [op, k, cand]  cand: values this fetch may return
+  stale,    \* keys whose resident value is past its TTL but inside the stale-while-revalidate window
+  landing   \* key |-> value the loader returned that is not resident yet (the task inserts it next)
 
-loaderVars == <<live, loading, pend>>
+loaderVars == <<live, loading, pend, stale, landing>>
 Put(f, k, v) == [x \in DOMAIN f \cup {k} |-> IF x = k THEN v ELSE f[x]]
 Drop1(f, k) == [x \in DOMAIN f \ {k} |-> f[x]]
 Live(k) == IF k \in DOMAIN live THEN live[k] ELSE 0
 
-\* the loader closure is entered for key k: only for a miss, and only one at a time
-CanLoadStart(k) == k \notin loading /\ Live(k) = 0
+\* the loader closure is entered for key k: only for a miss or for the refresh of a stale value,
+\* and only one at a time (a load counts as running until its value is resident)
+CanLoadStart(k) == k \notin loading /\ (Live(k) = 0 \/ k \in stale)
+\* values a fetch of k called now may return without a further load finishing
+CandNow(k) == (IF Live(k) # 0 THEN {Live(k)} ELSE {}) \cup (IF k \in DOMAIN landing THEN {landing[k]} ELSE {})
+\* the value the loader returned becomes resident (fresh) and the load is over
+LandEffect(k) == /\ k \in DOMAIN landing
+                 /\ live' = Put(live, k, landing[k]) /\ stale' = stale \ {k}
+                 /\ loading' = loading \ {k} /\ landing' = Drop1(landing, k)
 \* a fetch of k can only be waiting for something while a load of k is running
 FetchHasReasonToWait(k) == k \in loading
 =========================================================================
